@@ -15,7 +15,8 @@ import NeoModel.Base.Proto
 import NeoModel.Base.Hex
 import NeoModel.Model.Ledger.NativeSys
 import NeoModel.Model.Ledger.Whitelist
-open NeoModel NeoModel.Ledger NeoModel.Ledger.Natives
+import NeoModel.Model.Ledger.Components
+open NeoModel NeoModel.Ledger NeoModel.Ledger.Natives NeoModel.Ledger.Components
 
 structure DState where
   cfg : Cfg := { committeeSize := 1, validators := 1, standby := [] }
@@ -29,10 +30,31 @@ structure DState where
   wlB : Whitelist.State := Whitelist.empty
   wlPending : List (Option Whitelist.Op) := []  -- whitelist effect of each pending transaction (applied if it HALTs)
   methods : List String := []     -- method names seen (index = method id)
+  -- cached components (Model/Ledger/Components.lean), replica A and B
+  setA : Comp.CNode (List (Nat × Int)) (List (Nat × Int)) := { store := [], cache := [], height := 0 }
+  setB : Comp.CNode (List (Nat × Int)) (List (Nat × Int)) := { store := [], cache := [], height := 0 }
+  roleA : Comp.CNode RoleStore RoleCache := { store := [], cache := designate.init [], height := 0 }
+  roleB : Comp.CNode RoleStore RoleCache := { store := [], cache := designate.init [], height := 0 }
+  mgA : Comp.CNode MgmtStore (List (Nat × (Int × Nat))) := { store := { contracts := [], nextId := 1 }, cache := [], height := 0 }
+  mgB : Comp.CNode MgmtStore (List (Nat × (Int × Nat))) := { store := { contracts := [], nextId := 1 }, cache := [], height := 0 }
+  setTxs : List (CTx SetOp) := []
+  roleTxs : List (CTx RoleOp) := []
+  mgTxs : List (CTx MgmtOp) := []
+  mgToks : List String := []      -- tokens of contracts whose deployment was part of a block
+  gpbA : GpbState := { store := [(0, 500000000)], cache := [(0, 500000000)] }   -- genesis record (native_neo.go:345-349)
+  gpbB : GpbState := { store := [(0, 500000000)], cache := [(0, 500000000)] }
+  gpbSets : List Int := []        -- setGasPerBlock values of the HALTed transactions of the block being read
   pending : List Tx := []         -- transactions of the block being read
   height : Nat := 0
 
 def dropS (t : String) (n : Nat) : String := String.ofList (t.toList.drop n)
+
+def acctId : Acct → Nat
+  | .other n => n
+  | .key k => 1000000 + k
+
+def parseInt (t : String) : Int :=
+  if t.startsWith "-" then -((dropS t 1).toNat?.getD 0 : Nat) else ((t.toNat?.getD 0 : Nat) : Int)
 
 def rankOf (s : DState) (i : Nat) : Nat := s.rank.getD i 0
 
@@ -79,7 +101,64 @@ def idxList (s : DState) (ks : List Key) : String :=
 def wlStr (s : DState) (l : List (Whitelist.WKey × Int)) : String :=
   joinOr "," (sortStr (l.map fun ((c, m), fee) => s!"{tokOf s (Acct.other c)}.{s.methods.getD m "?"}:{fee}"))
 
-def obsNode (s : DState) (n : NNode) (wl : Whitelist.State) : String :=
+def settingNames : List (String × Nat) :=
+  [("af1", 1), ("af17", 17), ("af32", 32), ("af33", 33), ("af34", 34), ("vubi", 100), ("mtb", 101), ("mspb", 102),
+   ("nvbd", 103), ("oprice", 104), ("regprice", 105)]
+
+def settingsStr (n : Comp.CNode (List (Nat × Int)) (List (Nat × Int))) : String :=
+  ",".intercalate (settingNames.map fun (nm, k) =>
+    let c := match aget n.cache k with | some v => toString v | none => "0"
+    let st := match aget n.store k with | some v => toString v | none => "nil"
+    s!"{nm}:{c}/{st}")
+
+def nodesStr (l : List Nat) : String := joinOr "." ((sortNat l).map toString)
+
+def rolesStr (n : Comp.CNode RoleStore RoleCache) : String :=
+  ",".intercalate (roleList.map fun r =>
+    let c := match (n.cache.find? (·.1 == r)).map (·.2) with
+      | some (some (h, ns)) => s!"{h}:{nodesStr ns}"
+      | _ => "0:-"
+    let st := match maxEntry n.store r with
+      | some (h, ns) => s!"{h}:{nodesStr ns}"
+      | none => "0:-"
+    let cnt := (n.store.filter fun e => e.1.1 == r).length
+    s!"{r}={c}/{st}:{cnt}")
+
+def mgmtStr (s : DState) (n : Comp.CNode MgmtStore (List (Nat × (Int × Nat)))) : String :=
+  let ents := (sortStr s.mgToks).map fun t =>
+    let id := match s.toks.find? (·.1 == t) with
+      | some (_, a) => acctId a
+      | none => 0
+    let f := fun (o : Option (Int × Nat)) => match o with
+      | some (i, u) => s!"{i}:{u}"
+      | none => "-"
+    s!"{t}={f (aget n.cache id)}/{f (aget n.store.contracts id)}"
+  s!"{joinOr "," ents} next={n.store.nextId}"
+
+/-- the component calls of a transaction line -/
+def compOpsOf (s : DState) (ws : List String) : DState × Option SetOp × Option RoleOp × Option MgmtOp :=
+  match ws with
+  | _ :: _ :: "policy.setAttributeFee" :: t :: v :: _ => (s, some (.set (t.toNat?.getD 0) (parseInt v)), none, none)
+  | _ :: _ :: "policy.setMaxValidUntilBlockIncrement" :: v :: _ => (s, some (.set 100 (parseInt v)), none, none)
+  | _ :: _ :: "policy.setMaxTraceableBlocks" :: v :: _ => (s, some (.set 101 (parseInt v)), none, none)
+  | _ :: _ :: "policy.setMillisecondsPerBlock" :: v :: _ => (s, some (.set 102 (parseInt v)), none, none)
+  | _ :: _ :: "notary.setMaxNotValidBeforeDelta" :: v :: _ => (s, some (.set 103 (parseInt v)), none, none)
+  | _ :: _ :: "oracle.setPrice" :: v :: _ => (s, some (.set 104 (parseInt v)), none, none)
+  | _ :: _ :: "neo.setRegisterPrice" :: v :: _ => (s, some (.set 105 (parseInt v)), none, none)
+  | _ :: _ :: "role.designate" :: r :: ns :: _ =>
+    (s, none, some (.designate (r.toNat?.getD 0) ((ns.splitOn ".").map fun x => x.toNat?.getD 0)), none)
+  | _ :: _ :: "kv.deploy" :: c :: _ =>
+    let (s, a) := acctOf s c
+    ({ s with mgToks := if s.mgToks.contains c then s.mgToks else c :: s.mgToks }, none, none, some (.deploy (acctId a)))
+  | _ :: _ :: "kv.update" :: c :: _ =>
+    let (s, a) := acctOf s c
+    (s, none, none, some (.update (acctId a)))
+  | _ :: _ :: "kv.destroy" :: c :: _ =>
+    let (s, a) := acctOf s c
+    (s, none, none, some (.destroy (acctId a)))
+  | _ => (s, none, none, none)
+
+def obsNode (s : DState) (n : NNode) (wl : Whitelist.State) (comps : String) : String :=
   match n.read () with
   | none => "?"
   | some st =>
@@ -93,12 +172,19 @@ def obsNode (s : DState) (n : NNode) (wl : Whitelist.State) : String :=
         | none => "-"
         | some k => toString (indexOfRank s k)
       s!"{tokOf s a}:{b.balance}:{v}")
-    s!"h={n.height} wlc={wlStr s wl.cache} wls={wlStr s wl.store} fpb={g.feePerByte} eff={g.execFeeFactor} sp={g.storagePrice * 10000} blocked={joinOr "," blocked} cand={joinOr "," cand} vc={st.votersCount} cmt={joinOr "," cmt} ccmt={idxList s g.committee} nv={idxList s g.nextValidators} nenv={idxList s g.newEpochValidators} neo={joinOr "," neo}"
+    s!"h={n.height} wlc={wlStr s wl.cache} wls={wlStr s wl.store} {comps} fpb={g.feePerByte} eff={g.execFeeFactor} sp={g.storagePrice * 10000} blocked={joinOr "," blocked} cand={joinOr "," cand} vc={st.votersCount} cmt={joinOr "," cmt} ccmt={idxList s g.committee} nv={idxList s g.nextValidators} nenv={idxList s g.newEpochValidators} neo={joinOr "," neo}"
 
-def obsBoth (s : DState) : String := s!"{obsNode s s.a s.wlA} | {obsNode s s.b s.wlB}"
+def gpbStr (g : GpbState) (next : Nat) : String :=
+  let c := match gpbLookup g.cache next with | some v => toString v | none => "?"
+  let recs := (g.store.foldr insertRec []).map fun (i, v) => s!"{i}:{v}"
+  s!"{c}/{joinOr ";" recs}"
 
-def parseInt (t : String) : Int :=
-  if t.startsWith "-" then -((dropS t 1).toNat?.getD 0 : Nat) else ((t.toNat?.getD 0 : Nat) : Int)
+def compsStr (s : DState) (sn : Comp.CNode (List (Nat × Int)) (List (Nat × Int))) (rn : Comp.CNode RoleStore RoleCache)
+    (mn : Comp.CNode MgmtStore (List (Nat × (Int × Nat)))) (g : GpbState) (height : Nat) : String :=
+  s!"set={settingsStr sn} roles={rolesStr rn} mgmt={mgmtStr s mn} gpb={gpbStr g (height + 1)}"
+
+def obsBoth (s : DState) : String :=
+  s!"{obsNode s s.a s.wlA (compsStr s s.setA s.roleA s.mgA s.gpbA s.a.height)} | {obsNode s s.b s.wlB (compsStr s s.setB s.roleB s.mgB s.gpbB s.b.height)}"
 
 def resStr : Res → String
   | .haltTrue => "halt true"
@@ -171,10 +257,6 @@ def parseTx (s : DState) (ws : List String) : DState × Option Tx :=
     | _, _ => mk s .other
   | _ => (s, none)
 
-def acctId : Acct → Nat
-  | .other n => n
-  | .key k => 1000000 + k
-
 def methodId (s : DState) (m : String) : DState × Nat :=
   match s.methods.findIdx? (· == m) with
   | some i => (s, i)
@@ -213,8 +295,18 @@ def dstep (s : DState) (ws : List String) : DState × String :=
     let cfg : Cfg := { committeeSize := csz, validators := vc.toNat?.getD 1, standby := rk.take csz }
     let g := genesisNode cfg (Acct.other 0)
     ({ s with cfg := cfg, nkeys := n.toNat?.getD 0, rank := rk, a := g, b := g }, "ok")
+  | "init-settings" :: ents =>
+    let st := ents.foldl (fun (acc : List (Nat × Int)) e =>
+      match e.splitOn ":" with
+      | [nm, vals] =>
+        match settingNames.find? (·.1 == nm), vals.splitOn "/" with
+        | some (_, k), [_, stored] => if stored == "nil" then acc else aput acc k (parseInt stored)
+        | _, _ => acc
+      | _ => acc) []
+    let n : Comp.CNode (List (Nat × Int)) (List (Nat × Int)) := { store := st, cache := settings.init st, height := 0 }
+    ({ s with setA := n, setB := n }, "ok")
   | ["genesis"] => (s, obsBoth s)
-  | ["block", h, _] => ({ s with pending := [], wlPending := [], height := h.toNat?.getD 0 }, "ok")
+  | ["block", h, _] => ({ s with pending := [], wlPending := [], setTxs := [], roleTxs := [], mgTxs := [], gpbSets := [], height := h.toNat?.getD 0 }, "ok")
   | "tx" :: rest =>
     match parseTx s rest with
     | (s, none) => (s, "bad-op")
@@ -239,14 +331,32 @@ def dstep (s : DState) (ws : List String) : DState × String :=
         | none => (r, none)
       -- a faulted transaction is discarded as a whole by the main model only if the model itself said so; a
       -- whitelist panic turns a committee-gated no-op into a fault, which has no modelled effect either
+      -- cached components: one transaction per line; the outcome of calls the main model does not predict
+      -- ("skip") is taken from the real result noted on the line
+      let haltedC := if r == "skip" then rest.getLast? == some "=>halt" else r.startsWith "halt"
+      let (s, so, ro, mo) := compOpsOf s rest
+      let s := match so with | some o => { s with setTxs := s.setTxs ++ [({ ops := [o], halts := haltedC } : CTx SetOp)] } | none => s
+      let s := match ro with | some o => { s with roleTxs := s.roleTxs ++ [({ ops := [o], halts := haltedC } : CTx RoleOp)] } | none => s
+      let s := match rest with
+        | _ :: _ :: "neo.setGasPerBlock" :: v :: _ => if haltedC then { s with gpbSets := s.gpbSets ++ [parseInt v] } else s
+        | _ => s
+      let s := match mo with | some o => { s with mgTxs := s.mgTxs ++ [({ ops := [o], halts := haltedC } : CTx MgmtOp)] } | none => s
       ({ s with pending := txs, wlPending := s.wlPending ++ [wo] }, r)
   | ["endblock"] =>
     let s := stepBoth s (.addBlock s.pending)
     let wops := s.wlPending.filterMap id
     let s := { s with a := step (nativeSys s.cfg) s.a .flush, pending := [], wlPending := [],
-                      wlA := wlApply s.wlA wops, wlB := wlApply s.wlB wops }
+                      wlA := wlApply s.wlA wops, wlB := wlApply s.wlB wops,
+                      setA := settings.cstep s.setA (.block s.setTxs), setB := settings.cstep s.setB (.block s.setTxs),
+                      roleA := designate.cstep s.roleA (.block s.roleTxs), roleB := designate.cstep s.roleB (.block s.roleTxs),
+                      mgA := management.cstep s.mgA (.block s.mgTxs), mgB := management.cstep s.mgB (.block s.mgTxs),
+                      setTxs := [], roleTxs := [], mgTxs := [], gpbSets := [],
+                      gpbA := s.gpbSets.foldl (fun g v => gpbSet g s.height v) s.gpbA,
+                      gpbB := s.gpbSets.foldl (fun g v => gpbSet g s.height v) s.gpbB }
     (s, obsBoth s)
-  | ["restartB"] => ({ s with b := step (nativeSys s.cfg) s.b .restart, wlB := wlApply s.wlB [.restart] }, "ok")
+  | ["restartB"] => ({ s with b := step (nativeSys s.cfg) s.b .restart, wlB := wlApply s.wlB [.restart],
+                               setB := settings.cstep s.setB .restart, roleB := designate.cstep s.roleB .restart,
+                               mgB := management.cstep s.mgB .restart, gpbB := gpbRestart s.gpbB }, "ok")
   | ["flushB"] => ({ s with b := step (nativeSys s.cfg) s.b .flush }, "ok")
   | ["final"] => (s, obsBoth s)
   | ["aborted"] => (s, "aborted")
